@@ -219,6 +219,7 @@ def kercReply (name : String) (binds : List String) : String :=
     ("fit_w_proportional_im", Gen.K.fit_w_proportional_im), ("fit_w_boukamp_re", Gen.K.fit_w_boukamp_re), ("fit_w_boukamp_im", Gen.K.fit_w_boukamp_im),
     ("trnnls_A_re", Gen.K.trnnls_A_re), ("trnnls_A_im", Gen.K.trnnls_A_im), ("lm_tau", Gen.K.lm_tau), ("lm_gamma", Gen.K.lm_gamma),
     ("mrq_gamma_rc", Gen.K.mrq_gamma_rc), ("mrq_gamma_rq", Gen.K.mrq_gamma_rq), ("mrq_tau0", Gen.K.mrq_tau0),
+    ("intercept_of_lines", Gen.K.intercept_of_lines), ("target_fallback", Gen.K.target_fallback), ("target_main", Gen.K.target_main),
     ("est_pct_noise", Gen.K.est_pct_noise), ("est_pseudo_chisqr", Gen.K.est_pseudo_chisqr), ("noise_sd", Gen.K.noise_sd)]
   match tbl.find? (·.1 = name) with
   | none => "err no-kernel"
